@@ -15,6 +15,8 @@ def main():
     ap.add_argument("--replay")
     a = ap.parse_args()
     seed = int(os.environ.get("VERIF_SEED", "0"))
+    from . import cext
+    cext.install()  # the native helper every check runs against is rebuilt from /repo/tensordict/csrc
     mod = importlib.import_module("harness." + a.pid.lower())
     if a.replay:
         body = json.load(open(a.replay))
